@@ -36,80 +36,80 @@ type Assumption struct {
 }
 
 type Obligation struct {
-	Name   string
-	Kind   string
-	Tags   []string
-	Src    string
-	Line   string
-	Func   string
-	seg    *seg
-	seq    int
-	goal   string // must hold (already includes the reach guard: reach => P)
-	f      *FnCtx
-	Res    solverResult
-	Query  string
-	Cover  bool // vacuity cover: expected sat
-	Notes  []string
+	Name     string
+	Kind     string
+	Tags     []string
+	Src      string
+	Line     string
+	Func     string
+	seg      *seg
+	seq      int
+	goal     string // must hold (already includes the reach guard: reach => P)
+	f        *FnCtx
+	Res      solverResult
+	Query    string
+	Cover    bool // vacuity cover: expected sat
+	Notes    []string
 	replayed bool
-	stage int
-	clause *Clause
+	stage    int
+	clause   *Clause
 }
 
 type FnCtx struct {
-	e       *Engine
-	fn      *ssa.Function
-	spec    *FuncSpec
-	c       *Ctx
-	hs      *HeapSpace
-	assumes []Assumption
-	global  []string
-	obls    []*Obligation
-	abstr   map[string]int
-	exact   map[string]int
-	segN    int
-	seq     int
-	dry     bool
-	frameN  int
-	loopFrames map[string]*loopFrame
-	sweep   map[string]bool
-	sweepTags []string
-	allocN  int
-	ifaceUsed map[string]*types.Interface
-	oblNames map[string]int
-	inlineDepth int
-	notes   []string
-	closures map[string]*closureInfo // ref term -> closure
-	localAllocs map[string]bool      // ref literal -> non-escaping local
-	entryHeap *Heap
-	errs    []string
-	callOrd map[string]int
-	trusted map[string]bool
-	inlined map[string]bool
-	inlineStack []*ssa.Function
-	inlineInLoop bool
-	qn int
-	entryFrame *frame
-	anchors []*big.Int
-	convMemo map[string]string
+	e                *Engine
+	fn               *ssa.Function
+	spec             *FuncSpec
+	c                *Ctx
+	hs               *HeapSpace
+	assumes          []Assumption
+	global           []string
+	obls             []*Obligation
+	abstr            map[string]int
+	exact            map[string]int
+	segN             int
+	seq              int
+	dry              bool
+	frameN           int
+	loopFrames       map[string]*loopFrame
+	sweep            map[string]bool
+	sweepTags        []string
+	allocN           int
+	ifaceUsed        map[string]*types.Interface
+	oblNames         map[string]int
+	inlineDepth      int
+	notes            []string
+	closures         map[string]*closureInfo // ref term -> closure
+	localAllocs      map[string]bool         // ref literal -> non-escaping local
+	entryHeap        *Heap
+	errs             []string
+	callOrd          map[string]int
+	trusted          map[string]bool
+	inlined          map[string]bool
+	inlineStack      []*ssa.Function
+	inlineInLoop     bool
+	qn               int
+	entryFrame       *frame
+	anchors          []*big.Int
+	convMemo         map[string]string
 	i2fArgs, f2iArgs []string
-	forceSweep bool
-	usedSpecs map[string]bool
-	transients []transientIns
-	localChans []*localChan
-	indexTerms []string
-	frameMode bool
-	rangeKeys map[int]string
-	rangeVisKeys map[int]string
-	rangeDom0 map[int]string
-	rangeN int
-	mu sync.Mutex
-	addrFacts map[string]bool
-	lastLoadKey string
-	faddrN int
-	lastLockHeap *Heap // heap right after the most recent lock acquisition (after modelled interference)
-	knownOld map[string]bool // reference terms known to exist at entry (non-negative)
-	dirtyAll bool            // some havoc may have put this call's allocations into the heap
-	dirtyKey map[string]bool // a fresh reference was stored under this key
+	forceSweep       bool
+	usedSpecs        map[string]bool
+	transients       []transientIns
+	localChans       []*localChan
+	indexTerms       []string
+	frameMode        bool
+	rangeKeys        map[int]string
+	rangeVisKeys     map[int]string
+	rangeDom0        map[int]string
+	rangeN           int
+	mu               sync.Mutex
+	addrFacts        map[string]bool
+	lastLoadKey      string
+	faddrN           int
+	lastLockHeap     *Heap           // heap right after the most recent lock acquisition (after modelled interference)
+	knownOld         map[string]bool // reference terms known to exist at entry (non-negative)
+	dirtyAll         bool            // some havoc may have put this call's allocations into the heap
+	dirtyKey         map[string]bool // a fresh reference was stored under this key
 }
 
 type closureInfo struct {
@@ -123,36 +123,36 @@ type loopFrame struct {
 }
 
 type frame struct {
-	f       *FnCtx
-	fn      *ssa.Function
-	id      int
-	vals    map[ssa.Value]Val
-	in      map[*ssa.BasicBlock]*bstate
-	out     map[*ssa.BasicBlock]*bstate
-	edgeCond map[[2]int]string
-	rets    []retState
-	defers  []*deferSite
-	spec    *FuncSpec
-	top     bool
-	oldHeap *Heap
-	params  map[string]Val
-	loopOrd map[*ssa.BasicBlock]int
-	isHeader map[*ssa.BasicBlock]bool
-	loopBody map[*ssa.BasicBlock]map[*ssa.BasicBlock]bool
-	depth   int
-	cur     *bstate // state while executing a block
-	headerHeap map[*ssa.BasicBlock]*Heap
-	headerPre  map[*ssa.BasicBlock]*Heap
-	escaping map[*ssa.Alloc]bool
-	names []string
-	rangeInfo map[*ssa.Range][2]string
-	rangeVis  map[*ssa.Range][3]string // visited-set ghost key, key set at the start, key sort
-	siteOrd map[string][]ssa.Instruction
+	f           *FnCtx
+	fn          *ssa.Function
+	id          int
+	vals        map[ssa.Value]Val
+	in          map[*ssa.BasicBlock]*bstate
+	out         map[*ssa.BasicBlock]*bstate
+	edgeCond    map[[2]int]string
+	rets        []retState
+	defers      []*deferSite
+	spec        *FuncSpec
+	top         bool
+	oldHeap     *Heap
+	params      map[string]Val
+	loopOrd     map[*ssa.BasicBlock]int
+	isHeader    map[*ssa.BasicBlock]bool
+	loopBody    map[*ssa.BasicBlock]map[*ssa.BasicBlock]bool
+	depth       int
+	cur         *bstate // state while executing a block
+	headerHeap  map[*ssa.BasicBlock]*Heap
+	headerPre   map[*ssa.BasicBlock]*Heap
+	escaping    map[*ssa.Alloc]bool
+	names       []string
+	rangeInfo   map[*ssa.Range][2]string
+	rangeVis    map[*ssa.Range][3]string // visited-set ghost key, key set at the start, key sort
+	siteOrd     map[string][]ssa.Instruction
 	parent      *frame          // the frame this one is inlined into
 	parentSite  ssa.Instruction // the call instruction in parent that was inlined
 	pendingSite ssa.Instruction
 	guardedRefs map[ssa.Value]guardedRef
-	aliasLocals map[string]string // recorded name the function no longer has -> current name of that variable
+	aliasLocals map[string]string    // recorded name the function no longer has -> current name of that variable
 	aliasVals   map[string]ssa.Value // recorded name whose variable was inlined away -> the value it held
 	aliasParams map[string]int
 }
@@ -512,6 +512,8 @@ func (f *FnCtx) runTop() {
 	fr.assumeTypeInvariants(st)
 	fr.sweepPassWriter(st)
 	fr.sweepParamsReadOnly(st)
+	fr.sweepFreshDecode(st)
+	fr.checkContractParamsStable(st)
 	ret := fr.run(st)
 	if ret == nil {
 		return // never returns normally
@@ -1615,8 +1617,22 @@ func (f *FnCtx) fieldKey(obj string, t types.Type, i int) string {
 		if f.localAllocs[obj] {
 			f.hs.final[key] = true
 		} else if ts := f.e.typeSpecOf(t); ts != nil {
+			// inside a constructor / init function of the type its final fields are still being written,
+			// possibly by option closures the function is handed: there they get no protection from call havoc
+			building := false
+			if f.fn != nil {
+				root := f.fn
+				for root.Parent() != nil {
+					root = root.Parent()
+				}
+				for _, n := range append(append([]string{}, ts.Ctors...), ts.Inits...) {
+					if root.Name() == n || strings.HasSuffix(n, "*") && strings.HasPrefix(root.Name(), strings.TrimSuffix(n, "*")) {
+						building = true
+					}
+				}
+			}
 			for _, fn := range ts.Final {
-				if fn == fld.Name() {
+				if fn == fld.Name() && !building {
 					f.hs.final[key] = true
 				}
 			}
@@ -1843,6 +1859,8 @@ func (f *FnCtx) slFn(name string) string {
 		f.c.declFun(name, []string{sortInt}, sortInt)
 		if name == "sl_len" {
 			f.global = append(f.global, "(= (sl_len 0) 0)")
+			// a slice header, wherever it was loaded from, has a non-negative length
+			f.global = append(f.global, "(forall ((x Int)) (! (and (>= (sl_len x) 0) (<= (sl_len x) 9223372036854775807)) :pattern ((sl_len x))))")
 		}
 	}
 	return name
@@ -2065,7 +2083,7 @@ func (f *FnCtx) assumeOldRef(st *bstate, v Val) {
 	t := app(">=", v.Tm, "0")
 	if v.T != nil {
 		if _, ok := v.T.Underlying().(*types.Slice); ok {
-			t = and(t, app(">=", f.sliceBase(v.Tm), "0"))
+			t = and(t, app(">=", f.sliceBase(v.Tm), "0"), app(">=", f.sliceLen(v.Tm), "0"), app(">=", f.sliceCap(v.Tm), f.sliceLen(v.Tm)))
 		}
 	}
 	f.assume(st, t, "references existing at entry are non-negative (allocations of this call are negative)")
@@ -2402,4 +2420,180 @@ func (fr *frame) sweepParamsReadOnly(st *bstate) {
 			}
 		}
 	}
+}
+
+// sweep kind "freshdecode": inside a loop every message / item is decoded into storage of its own.  A
+// variable declared outside the loop and handed to json.Unmarshal / (*json.Decoder).Decode in the loop is
+// overwritten in place by the next iteration (a RawMessage keeps its backing array, a struct keeps the
+// fields the next document omits), so whatever an earlier iteration handed out - a pointer to it, a slice
+// of it - changes under its holder.  Structural.
+func (fr *frame) sweepFreshDecode(st *bstate) {
+	f := fr.f
+	if !f.sweep["freshdecode"] || f.dry {
+		return
+	}
+	for _, b := range fr.fn.Blocks {
+		for _, in := range b.Instrs {
+			call, ok := in.(ssa.CallInstruction)
+			if !ok {
+				continue
+			}
+			cc := call.Common()
+			callee := cc.StaticCallee()
+			if callee == nil || len(cc.Args) == 0 {
+				continue
+			}
+			switch callee.String() {
+			case "encoding/json.Unmarshal", "(*encoding/json.Decoder).Decode", "encoding/xml.Unmarshal", "(*encoding/xml.Decoder).Decode":
+			default:
+				continue
+			}
+			dst := cc.Args[len(cc.Args)-1]
+			for {
+				if mi, ok := dst.(*ssa.MakeInterface); ok {
+					dst = mi.X
+					continue
+				}
+				if fa, ok := dst.(*ssa.FieldAddr); ok {
+					dst = fa.X
+					continue
+				}
+				break
+			}
+			al, ok := dst.(*ssa.Alloc)
+			if !ok {
+				continue
+			}
+			for h, body := range fr.loopBody {
+				if body[b] && !body[al.Block()] {
+					what := al.Comment
+					if what == "" {
+						what = "value"
+					}
+					f.oblige(st, fmt.Sprintf("%s#decoded-into-storage-of-its-own:%s", fnShortName(fr.fn), what), "safety", f.sweepTags, "false",
+						fmt.Sprintf("loop %d decodes every item into the one variable %s declared outside it", fr.loopOrd[h], what), posStr(f.e.fset, in.Pos()))
+					break
+				}
+			}
+		}
+	}
+}
+
+// bareIdents: identifiers of a clause that are not under old() / atlock() and not bound by a quantifier.
+func bareIdents(e Expr, bound map[string]bool, out map[string]bool) {
+	switch x := e.(type) {
+	case *EIdent:
+		if !bound[x.Name] {
+			out[x.Name] = true
+		}
+	case *EUnary:
+		bareIdents(x.X, bound, out)
+	case *EBinary:
+		bareIdents(x.X, bound, out)
+		bareIdents(x.Y, bound, out)
+	case *ECond:
+		bareIdents(x.C, bound, out)
+		bareIdents(x.A, bound, out)
+		bareIdents(x.B, bound, out)
+	case *ESel:
+		bareIdents(x.X, bound, out)
+	case *EIndex:
+		bareIdents(x.X, bound, out)
+		bareIdents(x.I, bound, out)
+	case *ECall:
+		if id, ok := x.Fn.(*EIdent); ok && (id.Name == "atlock" || id.Name == "old") {
+			return
+		}
+		for _, a := range x.Args {
+			bareIdents(a, bound, out)
+		}
+	case *EQuant:
+		nb := map[string]bool{}
+		for k := range bound {
+			nb[k] = true
+		}
+		for _, v := range x.Vars {
+			nb[v.Name] = true
+		}
+		bareIdents(x.Body, nb, out)
+	case *EAssertT:
+		bareIdents(x.X, bound, out)
+	}
+}
+
+// A `before call` clause that names a parameter outside old() speaks of the parameter's current value.  If the
+// function assigns to that parameter the clause no longer relates the call to what the caller passed (the
+// clause "the message carries the given method" would hold of any rewritten method): such an assignment is
+// itself reported, under the clause's property.
+func (fr *frame) checkContractParamsStable(st *bstate) {
+	f := fr.f
+	if f.dry || !fr.top || fr.spec == nil || len(fr.spec.Before) == 0 {
+		return
+	}
+	params := map[string]*ssa.Parameter{}
+	for _, p := range fr.fn.Params {
+		params[p.Name()] = p
+	}
+	for _, ba := range fr.spec.Before {
+		if !f.e.active(ba.C.Tags) {
+			continue
+		}
+		ids := map[string]bool{}
+		bareIdents(ba.C.E, map[string]bool{}, ids)
+		for name := range ids {
+			p := params[name]
+			if p == nil {
+				continue
+			}
+			var at token.Pos
+			hasCell := false
+			for _, b := range fr.fn.Blocks {
+				for _, in := range b.Instrs {
+					if a, ok := in.(*ssa.Alloc); ok && a.Comment == name {
+						hasCell = true
+					}
+				}
+			}
+			for _, b := range fr.fn.Blocks {
+				for _, in := range b.Instrs {
+					switch x := in.(type) {
+					case *ssa.DebugRef:
+						if !hasCell && debugRefName(x) == name && !x.IsAddr && x.X != ssa.Value(p) && !isConversionOf(x.X, p) && !at.IsValid() {
+							at = x.Pos()
+						}
+					case *ssa.Store:
+						if a, ok := x.Addr.(*ssa.Alloc); ok && a.Comment == name && x.Val != ssa.Value(p) && !at.IsValid() {
+							at = x.Pos()
+						}
+					}
+				}
+			}
+			if at.IsValid() {
+				f.oblige(st, fmt.Sprintf("%s#parameter-named-in-a-clause-is-not-reassigned:%s", fnShortName(fr.fn), name), "safety", ba.C.Tags, "false",
+					"the clause at "+ba.C.Line+" names the parameter "+name+", which the function assigns to", posStr(f.e.fset, at))
+			}
+		}
+	}
+}
+
+// isConversionOf: v is p under an implicit or explicit type conversion (not a new value assigned to the name).
+func isConversionOf(v ssa.Value, p ssa.Value) bool {
+	for i := 0; i < 3; i++ {
+		switch x := v.(type) {
+		case *ssa.ChangeType:
+			v = x.X
+		case *ssa.ChangeInterface:
+			v = x.X
+		case *ssa.MakeInterface:
+			v = x.X
+		case *ssa.Convert:
+			v = x.X
+		default:
+			return v == p
+		}
+		if v == p {
+			return true
+		}
+	}
+	return false
 }
